@@ -14,6 +14,7 @@ class AnchorLost(Exception):
 class Ctx:
     def __init__(self, facts_dir, info):
         self.facts = Facts(facts_dir)
+        self.facts_dir = facts_dir
         self.info = info
         self._bodies = {}
         self._callers = None
